@@ -15,6 +15,10 @@ CLAIMS = {
             NOTE_ENGINE + "; index type/shard count abstracted (C10/C14)"),
     "C02": ("Theorems C02_restart_preserves_mapping / C02_close_open / C02_open_replays_log: for every history (merge-free) with restarts anywhere under arbitrary, independently chosen configurations, all results equal those of a map on which restart is the identity; Open after Close always succeeds; recovery = replay of the log with per-batch buffering (proved via a log invariant maintained by every operation, unbounded histories); correspondence run with restarts (all index types, shard counts, both I/O types, merges included) and a dump-before-close = dump-after-open oracle",
             NOTE_ENGINE + "; histories with merges are not covered by the restart theorem (see C06), only by the correspondence run"),
+    "C14": ("Theorems C14_results_independent_of_configuration / _with_merges: any two runs of one operation sequence under any two configurations, reopened with independently chosen configurations, return the same results (corollary of the refinement theorems: both equal the specification run); the check runs every generated script in lock step under three configurations (index type x shard count x I/O type x file size x sync strategy) on the real engine, diffs the transcripts with each other and with the model",
+            NOTE_ENGINE + "; index type and shard count are not parameters of the engine model (one ordered map); byte-identical layout is not part of the theorem"),
+    "C17": ("Theorems C17_size_equation / _with_merges / C17_keynum_exact: at every step of every history (an invariant proved by induction over operations, through batches, rotations and restarts under arbitrary configurations) DiskSize = ReclaimableSize + bytes of the live records and KeyNum = number of live keys; the check compares Stat, every live position and every file size with the model after each step and checks the equation directly on the implementation",
+            NOTE_ENGINE + "; the size equation across an adopting restart (hint path) and the per-file size limit are not yet theorems: they are covered by the correspondence run and the oracle only"),
     "C05": ("Theorems C05_*: a batch behaves as a private copy of the map installed at Commit (read-your-writes, in-order application, put-delete-put ends present), Commit succeeds and marks the batch committed, a committed batch rejects Put/Delete/Get/Commit without changing the database - for every database state, every sequence of batch operations incl. mid-batch flushes; correspondence run on batch-heavy scripts with a layered reference oracle",
             NOTE_ENGINE + "; the staging hash index is abstracted to key lookup; a fatal double unlock is observable only in the correspondence run"),
     "C11": ("Coq theorems (props/C11.v, closed under the global context) for every history of a data file, every record length and every block offset, about an executable model that is run against package datafile on generated histories on every check (bytes, positions, sizes, scans, random reads compared)",
